@@ -238,7 +238,7 @@ public:
      */
     auto size() const -> size_t
     {
-        std::atomic_thread_fence(std::memory_order_acquire);
+        std::lock_guard guard{m_lock};
         return m_keyed_elements.size();
     }
 
@@ -247,9 +247,9 @@ public:
      */
     auto clear() -> void
     {
-        if (!empty())
+        std::lock_guard guard{m_lock};
+        if (!m_keyed_elements.empty())
         {
-            std::lock_guard guard{m_lock};
             m_keyed_elements.clear();
             m_ttl_list.clear();
         }
@@ -378,7 +378,7 @@ private:
     }
 
     /// Thread lock for all mutations.
-    mutex<thread_safe_type> m_lock;
+    mutable mutex<thread_safe_type> m_lock;
 
     /// The keyed lookup data structure, the value is the keyed_element struct
     /// which includes the value and an iterator to the associated m_ttl_list
